@@ -14,7 +14,8 @@ RULE = (
     "histories (1-6 runs) on one data file of sample_combos(n, combos "
     "override, shuffle) and sow_samples/grow/reap crop runs (batch size / "
     "count, grow order) with n = 1..8, arguments drawn from choice lists or "
-    "from a harness callable that logs what it returned, runner constants, "
+    "from a harness callable that logs what it returned or all fixed as "
+    "runner constants (no sampled argument at all), runner constants, "
     "engine pickle / csv, a FRESH Sampler object on the same file between "
     "any two runs, and a second long-lived (rival) Sampler taking turns with "
     "the first; numpy.random seeded from the case.  Oracle after each run: "
@@ -77,6 +78,13 @@ def run_case(case):
             "log": None}
     consts = dict(case["constants"])
     A, Bv = case["a"], case["b"]
+    fixed = case.get("fixed")
+    if fixed:
+        # repeated trials at fixed parameters: every argument is a constant
+        # of the runner, nothing is sampled
+        A, Bv = A[:1], Bv[:1]
+        consts.update({"n": A[0], "k": Bv[0]})
+    b_callable = case["b_callable"] and not fixed
     sessions = crop_runs = 0
     with core.scratch("xv-c15-") as root:
         data_name = os.path.join(root, "samples." +
@@ -87,7 +95,9 @@ def run_case(case):
             r = x.Runner(fn, ("out", "E"), constants=consts or None)
             # ("n" before "k": the sower must not reorder them)
             dc = {"n": list(A),
-                  "k": scripted(Bv, "b") if case["b_callable"] else list(Bv)}
+                  "k": scripted(Bv, "b") if b_callable else list(Bv)}
+            if fixed:
+                dc = {"none": None, "dict": {}, "tuple": ()}[fixed]
             return x.Sampler(r, data_name=data_name, default_combos=dc,
                              engine=engine)
 
@@ -121,7 +131,7 @@ def run_case(case):
             n = op["n"]
             override = None
             allowed_a = list(A)
-            if op.get("override_a"):
+            if op.get("override_a") and not fixed:
                 # choices that are NOT among the defaults, so that a later
                 # run without override can be told apart
                 allowed_a = sorted({1000 + i for i in op["override_a"]})
@@ -173,7 +183,7 @@ def run_case(case):
                 bs.append(b)
                 require(a in allowed_a, "argument-outside-choices",
                         f"{tag}: n={a!r} not in {allowed_a}")
-                if not case["b_callable"]:
+                if not b_callable:
                     require(b in Bv, "argument-outside-choices",
                             f"{tag}: k={b!r} not in {Bv}")
                 kwargs = {"n": a, "k": b, **consts}
@@ -182,7 +192,7 @@ def run_case(case):
                     require(float(r[nm]) == want, "row-mispaired",
                             f"{tag}: row a={a!r} b={b!r} has {nm}={r[nm]!r},"
                             f" f gives {want!r}")
-            if case["b_callable"]:
+            if b_callable:
                 require(sorted(map(str, bs)) == sorted(map(str, gen_b)),
                         "not-the-generated-values",
                         f"{tag}: rows carry b={bs}, the generator returned "
@@ -206,7 +216,8 @@ def run_case(case):
     runs = sum(1 for op in case["ops"] if op["op"] != "session")
     return {"nontrivial": runs >= 2 and (sessions > 0 or crop_runs > 0),
             "classes": [f"engine={engine}",
-                        "callable" if case["b_callable"] else "choices",
+                        "fixed-parameters" if fixed else
+                        "callable" if b_callable else "choices",
                         "crop-run" if crop_runs else "direct-only",
                         "new-session" if sessions else "one-session"],
             "notes": {"runs": runs}}
@@ -263,6 +274,8 @@ def strategy(draw):
     return {"a": A, "b": Bv, "b_callable": draw(st.booleans()),
             "constants": draw(st.sampled_from([{}, {"p": 3}, {"q": "u"}])),
             "engine": draw(st.sampled_from(["pickle", "csv"])),
+            "fixed": draw(st.sampled_from([None, None, None, None, "none",
+                                           "dict", "tuple"])),
             "np_seed": draw(st.integers(0, 2**31)), "ops": ops}
 
 
